@@ -154,3 +154,17 @@ func VerifNewServer(serverHost string, connData *ConnData,
 func (k *connKit) VerifSIDs() ([64]byte, [64]byte) {
 	return k.receiveSID, k.sendSID
 }
+
+// VerifPattern returns the name of the handshake pattern that the Noise
+// machine of the current connection was built with ("" before the first
+// handshake).
+func (c *NoiseGrpcConn) VerifPattern() string {
+	c.proxyConnMtx.RLock()
+	defer c.proxyConnMtx.RUnlock()
+
+	if c.noise == nil {
+		return ""
+	}
+
+	return c.noise.pattern.Name
+}
